@@ -58,3 +58,17 @@ pub extern "Rust" fn __paseto_verif_ecdsa_nonce(out: &mut [u8; 48]) -> bool {
         None => false,
     })
 }
+
+/// run `f` with both seams disarmed and put the armed values and hit counters back afterwards
+pub fn isolated<R>(f: impl FnOnce() -> R) -> R {
+    let c = COUNTER.with(|c| c.borrow_mut().take());
+    let ch = COUNTER_HITS.with(|c| *c.borrow());
+    let n = NONCE.with(|c| c.borrow_mut().take());
+    let nh = NONCE_HITS.with(|c| *c.borrow());
+    let r = f();
+    COUNTER.with(|x| *x.borrow_mut() = c);
+    COUNTER_HITS.with(|x| *x.borrow_mut() = ch);
+    NONCE.with(|x| *x.borrow_mut() = n);
+    NONCE_HITS.with(|x| *x.borrow_mut() = nh);
+    r
+}
